@@ -195,8 +195,9 @@ def read_doc(text):
 
 def expand_plain(text):
     t = simpleTAL.compileHTMLTemplate(text)
-    o = io.StringIO()
-    t.expand(simpleTALES.Context(), o)
+    o = talgen.Sink()
+    with talgen.time_limit():
+        t.expand(simpleTALES.Context(), o)
     return o.getvalue()
 
 
@@ -234,8 +235,9 @@ def run(ctx):
             else:
                 res.count("caller:globals-only")
             pre = _snapshot(rctx)
-            o = io.StringIO()
-            t.expand(rctx, o)
+            o = talgen.Sink()
+            with talgen.time_limit():
+                t.expand(rctx, o)
             rout = o.getvalue()
             post = _snapshot(rctx)
         except KeyError:
@@ -412,8 +414,9 @@ def _python_gate(res, rnd, ctx, lines, cases):
             c.addGlobal("hit", hit)
             try:
                 t = simpleTAL.compileHTMLTemplate(tpl)
-                o = io.StringIO()
-                t.expand(c, o)
+                o = talgen.Sink()
+                with talgen.time_limit():
+                    t.expand(c, o)
                 outs[allow] = (o.getvalue(), list(hits))
             except KeyError:
                 outs[allow] = None
